@@ -85,8 +85,22 @@ def Class(name, super_expr, members):
 
 
 # ---- flatten -------------------------------------------------------------------------------------
+def name_lambdas(n, let_name=None):
+    """the parser names a lambda after the innermost `let` whose initialiser it is written in (however deep inside
+    that initialiser), and "lambda" otherwise; this is the name tracebacks show"""
+    if n["k"] == "lambda":
+        n["s"] = let_name or "lambda"
+    if n["k"] == "let":
+        for c in n["kids"]:
+            name_lambdas(c, n["s"])
+        return
+    for c in n["kids"]:
+        name_lambdas(c, let_name)
+
+
 def flatten(root):
     """returns (nodes, root id); ids are 1-based; also stores the id into each dict under '_id'"""
+    name_lambdas(root)
     nodes = []
 
     def go(n):
@@ -172,9 +186,15 @@ class Printer:
             return f"{self.sub(n['kids'][0])} ? {self.sub(n['kids'][1])} : {self.sub(n['kids'][2])}"
         if k == "assign": return f"{n['s']} = {self.expr(n['kids'][0])}"
         if k == "opassign": return f"{n['s']} {n['s2']} {self.expr(n['kids'][0])}"
-        if k == "call": return f"{self.callee(n['kids'][0])}({self.args(n['kids'][1:])})"
-        if k == "invoke": return f"{self.callee(n['kids'][0])}.{n['s']}({self.args(n['kids'][1:])})"
-        if k == "superinvoke": return f"super.{n['s']}({self.args(n['kids'])})"
+        if k in ("call", "invoke", "superinvoke"):
+            if k == "call": t = f"{self.callee(n['kids'][0])}({self.args(n['kids'][1:])})"
+            elif k == "invoke": t = f"{self.callee(n['kids'][0])}.{n['s']}({self.args(n['kids'][1:])})"
+            else: t = f"super.{n['s']}({self.args(n['kids'])})"
+            # the compiler attributes a call to the line of its closing parenthesis: an argument that is a lambda
+            # with a block body puts it below the line the call starts on
+            if "\n" in t and "_id" in n:
+                self.line_of[n["_id"]] = self.line_of[n["_id"]] + t.count("\n")
+            return t
         if k == "prop": return f"{self.callee(n['kids'][0])}.{n['s']}"
         if k == "propset": return f"{self.callee(n['kids'][0])}.{n['s']} = {self.expr(n['kids'][1])}"
         if k == "propop": return f"{self.callee(n['kids'][0])}.{n['s']} {n['s2']} {self.expr(n['kids'][1])}"
@@ -367,6 +387,8 @@ def multi_case_record(cid, main, modules):
 def case_record(cid, root, _nodes=None):
     nodes, r = _nodes if _nodes else flatten(root)
     names = {"script": [ord(c) for c in "script"], "lambda": [ord(c) for c in "lambda"], "[]": [91, 93], "[]=": [91, 93, 61]}
+    for nat in ("each", "reduce", "all", "any", "sort", "skip"):      # natives that appear as frames of their own
+        names[nat] = [ord(c) for c in nat]
     for cname in ("Error", "RuntimeError", "TypeError", "IndexError", "PropertyError", "ValueError", "KeyError",
                   "ImportError", "ExportError", "SyntaxError", "FormatError", "ChannelError", "MethodNotFoundError"):
         names[cname] = [ord(c) for c in cname]
